@@ -165,7 +165,7 @@ def playback(copy, h, here, r):
     s = open(tgt).read()
     s2 = s.replace('#[path = "%s"]' % src_mod, '#[path = "%s"]' % scratch_mod)
     open(tgt, 'w').write(s2)
-    pcmd = ['cargo', 'kani', 'playback', '-Z', 'concrete-playback']
+    pcmd = ['cargo', 'kani', 'playback', '-Z', 'concrete-playback', '--lib']
     if h.get('features'):
         pcmd += ['--features', ','.join(h['features'])]
     pcmd += ['--', test_name]
@@ -174,7 +174,8 @@ def playback(copy, h, here, r):
     try:
         p = subprocess.run(pcmd, cwd=copy, env=env, stdout=subprocess.PIPE, stderr=subprocess.STDOUT, timeout=900, universal_newlines=True)
         pout = p.stdout
-        reproduced = ('test result: FAILED' in pout) or ('panicked at' in pout)
+        reproduced = bool(re.search(r'test \S*%s \.\.\. FAILED' % re.escape(test_name), pout)) or \
+            bool(re.search(r"thread '\S*%s'[^\n]*panicked" % re.escape(test_name), pout))
     except subprocess.TimeoutExpired:
         pout = 'playback timed out'
         reproduced = False
